@@ -1,6 +1,6 @@
 (* C07: placement - obligations (models: Kernel/Placement.v, Kernel/Model.v) *)
 From Coq Require Import List Bool Arith NArith.
-From QV Require Import Kernel.GenSpawnTable Kernel.Placement Kernel.ProofsPlacement Kernel.Model Kernel.ProofsKernel Kernel.ProofsC07.
+From QV Require Import Kernel.GenSpawnTable Kernel.Placement Kernel.ProofsPlacement Kernel.Model Kernel.ProofsKernel Kernel.ProofsC07 Kernel.ProofsPin.
 Import ListNotations.
 
 Theorem C07_pinned_exec_home : forall st s w t got st' x h,
@@ -35,12 +35,19 @@ Theorem C07_migrate_other_cases : forall st t h st1 s w x,
 Proof. exact migrate_other_cases. Qed.
 Print Assumptions C07_migrate_other_cases.
 
-Theorem C07_mccoy_worker0_partial : forall st s w src t st',
-  step st (LTake s w src t) = Some st' ->
-  exists b x, place_of t st.(places) = Some (InQueue src b) /\ get_task t st.(tasks) = Some x /\
-              (src <> s -> b = true) /\ (x.(t_mccoy) = true -> w = 0).
-Proof. exact steal_respects_pin_partial. Qed.
-Print Assumptions C07_mccoy_worker0_partial.
+(* every execution of the main task, in every run, is on worker 0 of shepherd 0 (all_reads_plausible: a read of shepherd
+   0's active flag, which nobody ever writes, returns true) *)
+Theorem C07_mccoy_worker0 : forall ns nw ac tr st s w t got st' x,
+  run (init ns nw ac) tr = Some st -> all_reads_plausible (init ns nw ac) tr ->
+  step st (LExec s w t got) = Some st' -> get_task t st.(tasks) = Some x -> x.(t_mccoy) = true ->
+  s = 0 /\ w = 0.
+Proof. exact mccoy_worker0. Qed.
+Print Assumptions C07_mccoy_worker0.
+
+Theorem C07_mccoy_confined : forall ns nw ac tr st l,
+  run (init ns nw ac) tr = Some st -> all_reads_plausible (init ns nw ac) tr -> In (0, l) st.(places) -> mccoy_place l.
+Proof. exact mccoy_confined. Qed.
+Print Assumptions C07_mccoy_confined.
 
 Theorem C07_mccoy_cannot_migrate : forall st t h s w x,
   running_on st t = Some (s, w, x) -> x.(t_mccoy) = true -> step st (LMigrate t h) = Some st.
@@ -98,12 +105,18 @@ Theorem C07_fas_prefix_refuted :
 Proof. exact fas_prefix_refuted. Qed.
 Print Assumptions C07_fas_prefix_refuted.
 
-Theorem C07_steal_respects_pin_partial : forall st s w src t st',
-  step st (LTake s w src t) = Some st' ->
-  exists b x, place_of t st.(places) = Some (InQueue src b) /\ get_task t st.(tasks) = Some x /\
-              (src <> s -> b = true) /\ (x.(t_mccoy) = true -> w = 0).
-Proof. exact steal_respects_pin_partial. Qed.
-Print Assumptions C07_steal_respects_pin_partial.
+(* in every run, a task obtained from another shepherd's queue is not pinned: UNSTEALABLE clear, no target, not the main task *)
+Theorem C07_steal_respects_pin : forall ns nw ac tr st s w src t st',
+  run (init ns nw ac) tr = Some st -> step st (LTake s w src t) = Some st' -> src <> s ->
+  exists x, get_task t st.(tasks) = Some x /\ x.(t_unsteal) = false /\ x.(t_target) = None /\ x.(t_mccoy) = false.
+Proof. exact steal_respects_pin. Qed.
+Print Assumptions C07_steal_respects_pin.
+
+Theorem C07_pinned_node_unstealable : forall ns nw ac tr st t q b x h,
+  run (init ns nw ac) tr = Some st -> In (t, InQueue q b) st.(places) -> get_task t st.(tasks) = Some x ->
+  x.(t_target) = Some h -> b = false.
+Proof. exact pinned_node_unstealable. Qed.
+Print Assumptions C07_pinned_node_unstealable.
 
 Theorem C07_wake_dest_pinned : forall tu tshep ws, wake_dest tu true tshep ws = tshep.
 Proof. exact wake_dest_pinned. Qed.
